@@ -476,6 +476,8 @@ impl TTS {
                         },
                         value => value.into_string(),
                     };
+                    // the id is written into an attribute: an author's id may contain quotes or markup characters
+                    let id = id.replace('&', "&amp;").replace('<', "&lt;").replace('>', "&gt;").replace('\'', "&apos;").replace('"', "&quot;");
                     return Ok( format!("<{}='{}'/>", tag_and_attr, id) );
                 },
                 _ => bail!("Implementation error: found bookmark value that did not evaluate to a string"),
